@@ -91,7 +91,42 @@ def replay(r):
             y = self.drop(self.row(X, *a))
             outs = [y * (t + 1) for t in range(n_out)]
             return outs[0] if kind == "tensor" else (tuple(outs) if kind == "tuple" else list(outs))
+    if not r.get("has_param", True):
+        class M0(torch.nn.Module):
+            # no parameters: exact arithmetic on X in whatever dtype it arrives in
+            def __init__(self):
+                super().__init__()
+                self.drop = torch.nn.Dropout(0.5)
+                self.flags, self.x_dtypes = [], []
+
+            def row(self, X, *a):
+                return X.reshape(X.shape[0], -1)[:, :2] * 3
+
+            def forward(self, X, *a):
+                self.flags.append((self.training or self.drop.training, torch.is_grad_enabled()))
+                self.arg_dtypes = [ai.dtype for ai in a]
+                self.x_dtypes.append(X.dtype)
+                outs = [self.row(X) * (t + 1) for t in range(n_out)]
+                return outs[0] if kind == "tensor" else (tuple(outs) if kind == "tuple" else list(outs))
+        xd = getattr(torch, r.get("x_dtype", "float32"))
+        if xd.is_floating_point:
+            X = (X + 1e-9 * torch.arange(n * 6, dtype=torch.float64).reshape(n, 2, 3) + 1.0 / 3).to(xd)      # not representable in float32
+        else:
+            X = (torch.arange(n * 6, dtype=torch.int64).reshape(n, 2, 3) + (1 << 25) + 1).to(xd)              # exact only as integers
+        m0 = M0()
+        y = predict(m0, X, args=tuple(args) if n_args else None, batch_size=bs, device="cpu")
+        if any(f != (False, False) for f in m0.flags):
+            return True, "model was called in training mode or with gradients enabled"
+        if any(d != xd for d in m0.x_dtypes):
+            return True, "a model without parameters received X as %s instead of the caller's %s" % (m0.x_dtypes[0], xd)
+        ys = [y] if kind == "tensor" else list(y)
+        for t, yt in enumerate(ys):
+            if yt.dtype != xd or not torch.equal(yt, m0.row(X) * (t + 1)):
+                return True, "output %d is not the model on X in the caller's dtype" % t
+        return False, "ok"
     m = M()
+    if r.get("x_requires_grad"):
+        X = X.float().requires_grad_(True)
     m.train(r.get("top_training", True))
     m.drop.train(r.get("child_training", True))
     m.float()
@@ -117,6 +152,8 @@ def replay(r):
     with torch.no_grad():
         exp = m.row(X.float(), *args)
     ys = [y] if kind == "tensor" else list(y)
+    if any(yt.requires_grad or yt.grad_fn is not None for yt in ys):
+        return True, "an output carries an autograd graph: the model was not evaluated with gradients disabled" 
     if len(ys) != (1 if kind == "tensor" else n_out):
         return True, "wrong number of outputs"
     for t, yt in enumerate(ys):
@@ -133,7 +170,9 @@ def worker(cfg):
     out = {"violations": [], "samples": []}
 
     def body(ctx):
-        X = T.Tensor(np.array([[core.Real("x_%d_%d" % (i, j)) for j in range(2)] for i in range(n)], dtype=object), dtype="float32")
+        X = T.Tensor(np.array([[core.Real("x_%d_%d" % (i, j)) for j in range(2)] for i in range(n)], dtype=object), dtype=cfg.get("x_dtype", "float32"))
+        if cfg.get("x_requires_grad"):
+            X.requires_grad_(True)            # the caller's tensor takes part in an autograd graph of its own
         args = [T.Tensor(np.array([[core.Real("a%d_%d" % (k, i))] for i in range(n)], dtype=object), dtype="float32") for k in range(n_args)]
         bad = cfg.get("bad_arg")
         if bad is not None:
@@ -171,6 +210,8 @@ def worker(cfg):
         for s in model.seen:
             cl.append(not s["training"] and not s["drop_training"] and not s["grad"])
             cl.append(s["arg_dtypes"] == arg_dtypes)          # extra arguments reach the model as given
+            if not cfg.get("has_param", True):
+                cl.append(s["x_dtype"] == str(cfg.get("x_dtype", "float32")))      # a model without parameters sees X in the caller's own dtype
         ys = [y] if kind == "tensor" else list(y)
         cl.append(isinstance(y, T.Tensor) if kind == "tensor" else (len(ys) == n_out))
         for t, yt in enumerate(ys):
@@ -207,6 +248,12 @@ def configs(tier):
         for delta in (-1, 1):
             cf.append(dict(n=n, n_args=2, kind="tensor", n_out=1, bad_arg=1, bad_delta=delta))
     cf.append(dict(n=3, n_args=1, kind="tensor", n_out=1, has_param=False))
+    # a model without parameters: X reaches it in the caller's dtype (float64 unrounded, integers exact)
+    cf.append(dict(n=3, n_args=0, kind="tensor", n_out=1, has_param=False, x_dtype="float64"))
+    cf.append(dict(n=2, n_args=1, kind="tuple", n_out=2, has_param=False, x_dtype="int64"))
+    # the caller's X requires grad: the forward passes still run with gradients disabled
+    cf.append(dict(n=3, n_args=1, kind="tensor", n_out=1, x_requires_grad=True))
+    cf.append(dict(n=2, n_args=0, kind="list", n_out=3, x_requires_grad=True))
     return cf
 
 
